@@ -29,7 +29,10 @@ impl Solution {
             .ok_or(Error::Interpolation(InterpolationError::NotEnabled))?;
         let (start, end) = dense.t_span().ok_or(Error::Interpolation(InterpolationError::NotEnabled))?;
         let (lo, hi) = (start.min(end), start.max(end));
-        if t < lo || t > hi {
+        // same 1e-12 slack as the segment lookup and the output handler: the last reported time
+        // may lie an ulp (or the t_eval matching slack) beyond the last accepted step
+        let tol = 1e-12;
+        if t < lo - tol || t > hi + tol {
             return Err(Error::Interpolation(InterpolationError::OutOfRange {
                 t,
                 t_start: start,
@@ -52,8 +55,9 @@ impl Solution {
             .ok_or(Error::Interpolation(InterpolationError::NotEnabled))?;
         let (start, end) = dense.t_span().ok_or(Error::Interpolation(InterpolationError::NotEnabled))?;
         let (lo, hi) = (start.min(end), start.max(end));
+        let tol = 1e-12;
         for &t in ts {
-            if t < lo || t > hi {
+            if t < lo - tol || t > hi + tol {
                 return Err(Error::Interpolation(InterpolationError::OutOfRange {
                     t,
                     t_start: start,
